@@ -19,7 +19,7 @@ import time
 import traceback
 
 VERIF = os.path.dirname(os.path.dirname(os.path.abspath(__file__)))
-KNOWN_FILE = os.path.join(VERIF, "known_findings.json")
+KNOWN_FILE = os.environ.get("VERIF_KNOWN_FILE", os.path.join(VERIF, "known_findings.json"))
 MAX_SAMPLES = 12
 NPROC = int(os.environ.get("VERIF_NPROC", "16"))
 
